@@ -48,6 +48,10 @@ func Exec(w []string) (answer string, mine bool) {
 	case "disp", "disparms", "dispctx", "dispsites", "dispkinds", "dispfact", "beh", "e2e":
 	case "seq", "seqinv":
 		return seqExec(w), true
+	case "evt", "evtinv":
+		return evtExec(w), true
+	case "hs":
+		return hsExec(w), true
 	default:
 		return "", false
 	}
@@ -110,6 +114,23 @@ func Gen(r *vh.Rng, tier string, emit func(op, impl, class string, nontrivial bo
 	go func() {
 		defer close(seqDone)
 		seqRes = CollectSeq(seqR, tier)
+	}()
+	// 0b. the event tier (evt.go), likewise
+	evtR := vh.NewRng(r.U64())
+	evtScs := GenEvt(evtR, tier)
+	var evtRes, evtNotes []string
+	evtDone := make(chan struct{})
+	go func() {
+		defer close(evtDone)
+		evtRes = CollectEvt(evtScs, 6, &evtNotes)
+	}()
+	// 0c. connection set-up as a sequence of answers (hsseq.go)
+	hsScs := GenHs(vh.NewRng(r.U64()), tier)
+	var hsRes, hsNotes []string
+	hsDone := make(chan struct{})
+	go func() {
+		defer close(hsDone)
+		hsRes = CollectHs(hsScs, 4, &hsNotes)
 	}()
 	// 1. the extracted table, cell by cell
 	emit("dispsites", t.SitesLine(), "disp/sites", true)
@@ -215,6 +236,12 @@ func Gen(r *vh.Rng, tier string, emit func(op, impl, class string, nontrivial bo
 	}
 	<-seqDone
 	EmitSeq(seqRes, emit)
+	<-evtDone
+	EmitEvt(evtScs, evtRes, emit)
+	Notes = append(Notes, evtNotes...)
+	<-hsDone
+	EmitHs(hsScs, hsRes, emit)
+	Notes = append(Notes, hsNotes...)
 	sort.Strings(Notes)
 	_ = fmt.Sprint
 }
